@@ -45,6 +45,9 @@ type Script struct {
 	Then       string `json:"then"` // after the listed outcomes: ok | neterr (fail for ever)
 	CRLF       bool   `json:"crlf"`
 	Chunks     []int  `json:"chunks,omitempty"` // sizes of successive client-side body reads (empty: unlimited)
+	// NoStandalone: the client transport is configured with DisableStandaloneSSE (it must still resume the
+	// response streams of its calls).
+	NoStandalone bool `json:"no_standalone,omitempty"`
 }
 
 func genScript(rt *rapid.T) Script {
@@ -57,6 +60,7 @@ func genScript(rt *rapid.T) Script {
 		Then:    rapid.SampledFrom([]string{"ok", "ok", "ok", "neterr", "empty"}).Draw(rt, "then"),
 		CRLF:    rapid.IntRange(0, 5).Draw(rt, "crlf") == 0,
 	}
+	s.NoStandalone = rapid.IntRange(0, 2).Draw(rt, "no_standalone") == 0
 	if s.IDs {
 		s.Priming = rapid.Bool().Draw(rt, "priming")
 	}
@@ -330,7 +334,7 @@ func runInBubble(s Script) (res vt.Result) {
 			hmu.Unlock()
 		},
 	})
-	ct := &mcp.StreamableClientTransport{Endpoint: "http://mcp.example/mcp", HTTPClient: tr.Client()}
+	ct := &mcp.StreamableClientTransport{Endpoint: "http://mcp.example/mcp", HTTPClient: tr.Client(), DisableStandaloneSSE: s.NoStandalone}
 	var cs *mcp.ClientSession
 	cerr := make(chan error, 1)
 	go func() {
